@@ -146,14 +146,22 @@ def shard_dup_trigger(sh):
     H = _cls()
     for kind in ('str', 'hex'):
         m = Monitored(sh, H(0.02), kind + '/full-warm-up-then-duplicates')
-        for i in range(WARMUP):
-            m.add(value(kind, i, 7), check=(i >= WARMUP - 3))
+        vals, seen, i = [], set(), 0
+        while len(vals) < WARMUP + 2:            # distinct values (32-bit digests may repeat)
+            v = value(kind, i, 7)
+            i += 1
+            if v not in seen:
+                seen.add(v)
+                vals.append(v)
+        for j in range(WARMUP):
+            m.add(vals[j], check=(j >= WARMUP - 3))
         for j in (0, WARMUP - 1, 12345, 0):
-            m.add(value(kind, j, 7), check=True)
+            m.add(vals[j], check=True)
         m.check()
-        m.add(value(kind, WARMUP, 7), check=True)           # the first genuinely new value switches to the estimate
-        m.add(value(kind, 5, 7), check=True)
-        m.add(value(kind, WARMUP, 7), check=True)
+        m.add(vals[WARMUP], check=True)           # the first genuinely new value switches to the estimate
+        m.add(vals[5], check=True)
+        m.add(vals[WARMUP], check=True)
+        m.add(vals[WARMUP + 1], check=True)
         if m.crossed:
             sh.ok('boundary-crossed')
         sh.case(('dup-trigger', kind), True, 'boundary/duplicate-at-full-warm-up', sample={'kind': kind, 'distinct': len(m.shadow), 'len': len(m.s)})
